@@ -13,7 +13,7 @@ def main(argv):
         print("usage: check <property id> <quick|thorough> | check <id> --replay <file>")
         return 2
     prop = argv[0].upper()
-    os.environ.setdefault("NUMBA_CACHE_DIR", "/verif/.cache/numba")
+    os.environ.setdefault("NUMBA_CACHE_DIR", os.path.join(os.path.dirname(os.path.dirname(os.path.abspath(__file__))), ".cache", "numba"))
     os.environ.setdefault("NUMBA_DISABLE_PERFORMANCE_WARNINGS", "1")
     sys.dont_write_bytecode = True
     mod = importlib.import_module(f"harness.{prop.lower()}")
